@@ -23,7 +23,7 @@ import Tickit.Driver.Common
          operations by the property's own definition - an expose of `e` in window `w` damages `e ∩ w` clipped to the
          bounds of every ancestor, nothing when `w` or an ancestor is hidden (`exposedRegion`, the executable
          `WinTree.ExposedRegion`) - with sound over-approximations for restacks and scrolls; every rectangle handed to
-         the root window and every cell the flush changed must lie inside it.
+         a handler and every cell the flush changed must lie inside it.
 -/
 namespace Tickit.Driver.WinEngine
 open Tickit Tickit.Driver Tickit.WinTree Tickit.WinRB Tickit.WinFlush
@@ -617,19 +617,23 @@ def showRects (rs : List Rect) : String :=
   "; ".intercalate ((rs.take 8).map fun r => s!"{r.top},{r.left},{r.lines},{r.cols}") ++ (if rs.length > 8 then "; ..." else "")
 
 /-- C02, the damaged region stated independently of what the implementation chose to repaint: every rectangle handed to
-    the root window, and every cell the flush changed, lies inside the abstract damage region `dmg`. -/
+    a window (the root window is handed every rectangle the flush repaints), and every cell the flush changed, lies inside
+    the abstract damage region `dmg`. -/
 def specDamage (d : DSt) (dmg : List Rect) (o : ImplObs) : String :=
   match o.grid with
   | none => ""
   | some g =>
     let m := Mask.ofRects g.size (g.getD 0 #[]).size dmg
-    let e := (o.evs.filter (·.1 = 0)).findSome? fun (_, r) =>
+    let e := o.evs.findSome? fun (id, r) =>
+      -- the window's top-left corner in root coordinates
+      let (ot, ol) := ((id :: ancestors o.tree (o.tree.wins.size + 1) id).filterMap (o.tree.wins[·]?)).foldl
+        (fun (a : Int × Int) w => (a.1 + w.rect.top, a.2 + w.rect.left)) (0, 0)
       (List.range r.lines.toNat).findSome? fun (i : Nat) =>
         (List.range r.cols.toNat).findSome? fun (j : Nat) =>
-          let l := r.top + (i : Int)
-          let c := r.left + (j : Int)
+          let l := ot + r.top + (i : Int)
+          let c := ol + r.left + (j : Int)
           if 0 ≤ l ∧ 0 ≤ c ∧ m.get l.toNat c.toNat then none
-          else some s!"window 0 was handed the rectangle {r.top},{r.left},{r.lines},{r.cols} but its cell ({l},{c}) is outside the region damaged since the previous flush (the operations damaged: {showRects dmg})"
+          else some s!"window {id} was handed the rectangle {r.top},{r.left},{r.lines},{r.cols} but its cell ({r.top + (i : Int)},{r.left + (j : Int)}) (terminal cell ({l},{c})) is outside the region damaged since the previous flush (the operations damaged: {showRects dmg})"
     match e with
     | some msg => msg
     | none =>
